@@ -297,7 +297,8 @@ Lemma byte_list_copy_buf d start len buf : byte_list d -> byte_list buf -> byte_
 Proof. intros A B. unfold copy_buf. apply byte_list_app; [exact A|]. unfold byte_list. apply Forall_firstn, Forall_firstn, Forall_skipn. exact B. Qed.
 Lemma ffs_bytes c r pgn src dst tp : time_ok c r -> Forall (fun s => byte_list (s_data s)) (fst (find_free_slot r pgn src dst tp)).
 Proof.
-  intros H. pose proof (to_slots _ _ H) as S. unfold find_free_slot.
+  intros H. pose proof (to_slots _ _ H) as S. unfold find_free_slot. cbv zeta.
+  destruct (_ <? nslots r); [exact S|].
   destruct (ff_scan _ _ _ _ _ _ _ _) as [[i oi] ot]. destruct (_ && _); cbn [fst]; [|exact S].
   apply Forall_zset; [exact S|]. unfold free_slot. cbn [s_data].
   unfold znth. destruct (Nat.lt_ge_cases (Z.to_nat oi) (length (r_slots r))) as [L|L].
@@ -314,13 +315,27 @@ Lemma vi_ge0 c r i : time_ok c r -> vi (rn r) i -> vi (rn r) i.  Proof. auto. Qe
 Lemma htp_rts_sh c r src dst buf : 0 <= c -> time_ok c r ->
   htp_rts (shift_rnode c r) src dst buf = lift4 c (htp_rts r src dst buf) /\ time_ok c (snd (fst (fst (htp_rts r src dst buf)))).
 Proof.
-  intros Hc H. unfold htp_rts, lift4. cbv zeta. rewrite shr_nslots, find_source_device_sh, find_free_slot_sh.
-  pose proof (find_source_device_vi c r dst H) as Vd. set (idev := find_source_device r dst) in *.
-  pose proof (ffs_bytes c r (le3 buf 5) src dst true H) as FB.
-  destruct (find_free_slot r (le3 buf 5) src dst true) as [slots1 idx]. cbn [fst snd] in *.
-  rewrite with_slots_sh. pose proof (tok_with_slots c r slots1 H FB) as H1. set (r1 := with_slots r slots1) in *.
-  assert (V1: vi (rn r1) idev) by exact Vd.
-  destruct (idx =? nslots r).
+  intros Hc H0. unfold htp_rts, lift4. cbv zeta. rewrite shr_nslots, find_source_device_sh.
+  pose proof (find_source_device_vi c r dst H0) as Vd. set (idev := find_source_device r dst) in *.
+  set (mx := nslots r).
+  (* the release of an open session of the same pair for another PGN commutes with the shift *)
+  set (rel := fun s => if negb (s_free s) && s_tp s && (s_src s =? src) && (s_dst s =? dst) && negb (s_pgn s =? le3 buf 5) then free_slot s else s).
+  assert (RelSh: map rel (r_slots (shift_rnode c r)) = map (shift_slot c) (map rel (r_slots r))).
+  { rewrite shr_slots, !map_map. apply map_ext. intros s. unfold rel. ssp_rw c s.
+    destruct (negb (s_free s) && s_tp s && (s_src s =? src) && (s_dst s =? dst) && negb (s_pgn s =? le3 buf 5)); [apply free_shift_slot|reflexivity]. }
+  rewrite RelSh, with_slots_sh.
+  assert (H: time_ok c (with_slots r (map rel (r_slots r)))).
+  { apply tok_with_slots; [exact H0|]. pose proof (to_slots _ _ H0) as S. apply Forall_map. apply Forall_impl with (2 := S).
+    intros s Bs. unfold rel. destruct (_ && _); [unfold free_slot; cbn [s_data]|]; exact Bs. }
+  assert (MX: nslots (with_slots r (map rel (r_slots r))) = mx) by (unfold nslots, mx; cbn [with_slots r_slots]; rewrite map_length; reflexivity).
+  set (ra := with_slots r (map rel (r_slots r))) in *.
+  assert (Va: vi (rn ra) idev) by exact Vd.
+  rewrite find_free_slot_sh.
+  pose proof (ffs_bytes c ra (le3 buf 5) src dst true H) as FB.
+  destruct (find_free_slot ra (le3 buf 5) src dst true) as [slots1 idx]. cbn [fst snd] in *.
+  rewrite with_slots_sh. pose proof (tok_with_slots c ra slots1 H FB) as H1. set (r1 := with_slots ra slots1) in *.
+  assert (V1: vi (rn r1) idev) by exact Va.
+  fold mx. destruct (idx =? mx).
   - destruct ((byte buf 0 =? c_TP_CM_RTS) && (idev >=? 0)); [|split; [reflexivity|exact H1]].
     destruct (send_tpcm_abort_sh c r1 (le3 buf 5) src idev c_TP_CM_AbortBusy Hc H1 V1) as [E K]. rewrite E. unfold lift_res.
     destruct (send_tpcm_abort r1 (le3 buf 5) src idev c_TP_CM_AbortBusy) as [r2 ev]. cbn [fst snd] in *. split; [reflexivity|exact K].
@@ -349,8 +364,8 @@ Qed.
 Lemma range_vi r i : (0 <=? i) && (i <? dev_count (rn r)) = true -> vi (rn r) i.
 Proof. intros Hr. apply vi_range. apply andb_true_iff in Hr. destruct Hr as [H1 H2]. apply Z.leb_le in H1. apply Z.ltb_lt in H2. lia. Qed.
 
-Lemma htp_cts_sh c r dst buf : 0 <= c -> time_ok c r ->
-  htp_cts (shift_rnode c r) dst buf = lift4 c (htp_cts r dst buf) /\ time_ok c (snd (fst (fst (htp_cts r dst buf)))).
+Lemma htp_cts_sh c r src dst buf : 0 <= c -> time_ok c r ->
+  htp_cts (shift_rnode c r) src dst buf = lift4 c (htp_cts r src dst buf) /\ time_ok c (snd (fst (fst (htp_cts r src dst buf)))).
 Proof.
   intros Hc H. unfold htp_cts, lift4. cbv zeta. rewrite shr_nslots, find_source_device_sh.
   set (idev := find_source_device r dst) in *. rewrite shr_rn, shn_count.
@@ -358,6 +373,7 @@ Proof.
   pose proof (range_vi r idev Hr) as V. rewrite get_dev_sh by exact V. cbn [shift_dev d_tp_msg d_next_dt_seq].
   destruct (d_tp_msg (get_dev (rn r) idev)) as [pm|] eqn:Etp; [|split; [reflexivity|exact H]].
   destruct (m_dst pm =? 255); [split; [reflexivity|exact H]|].
+  destruct (negb (m_dst pm =? src)); [split; [reflexivity|exact H]|].
   destruct (end_send_tp_r_sh c r idev Hc H V) as [EE KE].
   destruct (negb (m_pgn pm =? le3 buf 5)); cbn [fst snd]; [rewrite EE; split; [reflexivity|exact KE]|].
   destruct (tok_now _ _ H) as [N1 N2].
@@ -384,15 +400,15 @@ Proof.
     cbn [fst snd]. rewrite E3. split; [reflexivity|exact K3].
 Qed.
 
-Lemma htp_ack_sh c r dst : 0 <= c -> time_ok c r ->
-  htp_ack (shift_rnode c r) dst = lift4 c (htp_ack r dst) /\ time_ok c (snd (fst (fst (htp_ack r dst)))).
+Lemma htp_ack_sh c r src dst : 0 <= c -> time_ok c r ->
+  htp_ack (shift_rnode c r) src dst = lift4 c (htp_ack r src dst) /\ time_ok c (snd (fst (fst (htp_ack r src dst)))).
 Proof.
   intros Hc H. unfold htp_ack, lift4. cbv zeta. rewrite shr_nslots, find_source_device_sh.
   set (idev := find_source_device r dst) in *. rewrite shr_rn, shn_count.
   destruct ((0 <=? idev) && (idev <? dev_count (rn r))) eqn:Hr; cbn [negb fst snd]; [|split; [reflexivity|exact H]].
   pose proof (range_vi r idev Hr) as V. rewrite get_dev_sh by exact V. cbn [shift_dev d_tp_msg].
   destruct (d_tp_msg (get_dev (rn r) idev)) as [pm|]; [|split; [reflexivity|exact H]].
-  destruct (m_dst pm =? 255); cbn [fst snd]; [split; [reflexivity|exact H]|].
+  destruct ((m_dst pm =? 255) || negb (m_dst pm =? src)); cbn [fst snd]; [split; [reflexivity|exact H]|].
   destruct (end_send_tp_r_sh c r idev Hc H V) as [EE KE]. rewrite EE. split; [reflexivity|exact KE].
 Qed.
 
